@@ -48,6 +48,13 @@ def normalise(raw_events):
             if 1 <= o <= len(lst):
                 return lst[o - 1]
             return None
+        # requests of clients that hung up without reading (class ...|churn) and whose answer was never seen by anybody are
+        # projected away: the specification says nothing about an answer nobody received, and tens of thousands of
+        # never-finished requests make the validation quadratic.  An answer of such a request that surfaces on ANOTHER
+        # connection still carries its token and is judged there (no request of that client has it).
+        answered_toks = {e.get("t") for e in rnd if e["ev"] == "ClientRecv" and e.get("t")}
+        projected = {e["t"] for e in rnd if e["ev"] == "ClientSend" and e.get("class", "").endswith("|churn")
+                     and e.get("t") and e["t"] not in answered_toks}
         since_gc = 0
         out.append({"ev": "Reset"})
         for e in rnd:
@@ -90,6 +97,9 @@ def normalise(raw_events):
                 m = CLASS_RE.match(e.get("class", ""))
                 if not m:
                     continue
+                if e.get("t") in projected:
+                    keylist.setdefault((e["caddr"], e["stream"]), []).append(None)  # keeps the ordinals of the pair
+                    continue
                 nreq += 1
                 r = nreq
                 tok2r[e["t"]] = r
@@ -100,7 +110,7 @@ def normalise(raw_events):
                 out.append({"ev": "Submit", "r": r, "c": e["c"], "s": e["stream"], "idem": m.group(1) == "idem",
                             "op": m.group(3), "cached": bool(m.group(2)), "t": e["t"], "sess": e.get("sess", "4|")})
             elif ev == "BackendRecv":
-                if e["b"] in registered:
+                if e["b"] in registered or e.get("t") in projected:
                     continue
                 r = tok2r.get(e["t"], 0)
                 if e["op"] == "PREPARE" and (e["b"], e["bstream"]) in prepmap:
